@@ -129,6 +129,10 @@ def run_case(case):
     except Exception as e:  # noqa: BLE001
         out["status"] = "raised"
         out["msg"] = f"{type(e).__name__}: {str(e).strip()[:160]}"
+        if first and "A-B matrix has negative eigenvalues" in str(e):
+            # the reference state of a bond stretched by 0.4 A can be RPA-unstable (MNDO HCN): a loud refusal of a request
+            # that has no RPA solution, produced by the harness's own distortion
+            out["expected_rejection"] = out["expected_rejection"] or "RPA instability at the harness's stretched geometry"
         return out
     obs = sp.observe(molecule, es)
     out["status"] = "ok"
